@@ -43,7 +43,7 @@ Theorem fresh_increasing_chk_correct :
   forall tr, fresh_increasing_chk tr = true <-> fresh_increasing tr.
 Proof. exact fresh_increasing_chk_correct_l. Qed.
 
-(* the four recorded classes do break the property on the model (witnesses re-run on the real code):
+(* the recorded classes do break the property on the model (witnesses re-run on the real code):
    1  INSERT (id) VALUES (NULL),(2),(NULL)            -> ids 1, 2, 2
    2  INSERT of two rows failing at the second, then INSERT -> id 1 generated twice
    3  after an explicit i64::MAX the next generated id is i64::MIN
@@ -66,6 +66,21 @@ Theorem autoinc_refuted_bulk_explicit :
   exists h, known_class h = 4 /\ trace h = [(1, true); (3, false); (2, true); (3, true)] /\ ~ fresh_increasing (trace h).
 Proof. exact autoinc_refuted_bulk_explicit_l. Qed.
 
+(* the same for what a narrower id column (SMALLINT 16 / INTEGER 32 / BIGINT 64 bits) actually
+   stores: outside class 5 (an id outside the column's range is written) nothing is wrapped and
+   the stored values are fresh and increasing *)
+Theorem autoinc_fresh_increasing_stored :
+  forall w h, 0 < w -> known_class_w w h = 0 -> trace_w w h = trace h /\ fresh_increasing (trace_w w h).
+Proof. exact autoinc_fresh_increasing_stored_l. Qed.
+
+(*  5  INTEGER column: after 2147483647 the generated id 2147483648 is stored as -2147483648 *)
+Theorem autoinc_refuted_narrow_column :
+  exists h, known_class_w 32 h = 5 /\
+    trace h = [(2147483646, false); (2147483647, true); (2147483648, true)] /\
+    trace_w 32 h = [(2147483646, false); (2147483647, true); (-2147483648, true)] /\
+    ~ fresh_increasing (trace_w 32 h).
+Proof. exact autoinc_refuted_narrow_column_l. Qed.
+
 (* non-vacuity: a history with explicit ids, a mixed statement, a failing statement, a delete, a
    rolled-back transaction, a reopen and a bulk insert of ids the counter already passed lies
    outside every class and generates 1,2,3,11,12,13,14 *)
@@ -74,7 +89,7 @@ Example c12_witness :
             Insert [RNull; RInt 7] (Some 0%nat); TxBegin; Insert [RNull; RNull] None; TxRollback;
             Reopen; Insert [RInt 12; RNull] (Some 1%nat); Insert [RNull] None;
             Bulk [RNull; RInt 5; RInt (-2)] None; Insert [RNull] None] in
-  known_class h = 0 /\ counter h = 14 /\
+  known_class h = 0 /\ known_class_w 16 h = 0 /\ counter h = 14 /\
   trace h = [(1, true); (2, true); (3, true); (10, false); (4, false); (11, true); (12, true);
              (12, false); (13, true); (5, false); (-2, false); (14, true)] /\
   fresh_increasing_chk (trace h) = true /\ single_row [Insert [RNull] None; Delete; Insert [RInt 5] None].
@@ -93,6 +108,8 @@ Check autoinc_refuted_explicit_ahead : exists h, known_class h = 1 /\ trace h = 
 Check autoinc_refuted_failed_statement : exists h, known_class h = 2 /\ trace h = [(1, true); (1, true)] /\ ~ fresh_increasing (trace h).
 Check autoinc_refuted_i64_wrap : exists h, known_class h = 3 /\ trace h = [(1, true); (9223372036854775807, false); (-9223372036854775808, true)] /\ ~ fresh_increasing (trace h).
 Check autoinc_refuted_bulk_explicit : exists h, known_class h = 4 /\ trace h = [(1, true); (3, false); (2, true); (3, true)] /\ ~ fresh_increasing (trace h).
+Check autoinc_fresh_increasing_stored : forall w h, 0 < w -> known_class_w w h = 0 -> trace_w w h = trace h /\ fresh_increasing (trace_w w h).
+Check autoinc_refuted_narrow_column : exists h, known_class_w 32 h = 5 /\ trace h = [(2147483646, false); (2147483647, true); (2147483648, true)] /\ trace_w 32 h = [(2147483646, false); (2147483647, true); (-2147483648, true)] /\ ~ fresh_increasing (trace_w 32 h).
 
 Print Assumptions autoinc_fresh_increasing.
 Print Assumptions autoinc_counter_dominates.
@@ -104,3 +121,5 @@ Print Assumptions autoinc_refuted_explicit_ahead.
 Print Assumptions autoinc_refuted_failed_statement.
 Print Assumptions autoinc_refuted_i64_wrap.
 Print Assumptions autoinc_refuted_bulk_explicit.
+Print Assumptions autoinc_fresh_increasing_stored.
+Print Assumptions autoinc_refuted_narrow_column.
